@@ -44,12 +44,17 @@ structure Cfg where
   shadowFixed : Bool := false
   crossFixed : Bool := false
   voidFixed : Bool := false
+  prefixFixed : Bool := false     -- user names `param_…` / `innerParam_…` are renamed like blanks (c612461)
+  universeFixed : Bool := false   -- so are predeclared identifiers (`nil`, `string`, `len`, …) (568d1b4)
+  resultsFixed : Bool := false    -- result names are dropped when one is `f` / `param_…` / `innerParam_…` (18449d4)
   deriving DecidableEq, Repr, Inhabited
 
 /-- the generator as it is at the pinned commit -/
 def Cfg.current : Cfg := {}
 /-- all defect classes repaired -/
-def Cfg.fixed : Cfg := { unnamedFixed := true, shadowFixed := true, crossFixed := true, voidFixed := true }
+def Cfg.fixed : Cfg :=
+  { unnamedFixed := true, shadowFixed := true, crossFixed := true, voidFixed := true, prefixFixed := true,
+    universeFixed := true, resultsFixed := true }
 
 def blank : Name := ['_']
 def fName : Name := ['f']
@@ -65,39 +70,68 @@ def tys (ps : List Param) : List Nat := ps.map (·.ty)
 
 /-! ### `derive/params.go` -/
 
-/-- `hasBlankIdentifier` -/
-def hasBlank (ps : List Param) : Bool := ps.any (fun p => p.name == blank)
+/-- Go's predeclared identifiers (`types.Universe`) -/
+def goUniverse : List Name := [
+  ['a', 'n', 'y'], ['b', 'o', 'o', 'l'], ['b', 'y', 't', 'e'], ['c', 'o', 'm', 'p', 'a', 'r', 'a', 'b', 'l', 'e'],
+  ['c', 'o', 'm', 'p', 'l', 'e', 'x', '6', '4'], ['c', 'o', 'm', 'p', 'l', 'e', 'x', '1', '2', '8'], ['e', 'r', 'r', 'o', 'r'], ['f', 'l', 'o', 'a', 't', '3', '2'],
+  ['f', 'l', 'o', 'a', 't', '6', '4'], ['i', 'n', 't'], ['i', 'n', 't', '8'], ['i', 'n', 't', '1', '6'],
+  ['i', 'n', 't', '3', '2'], ['i', 'n', 't', '6', '4'], ['r', 'u', 'n', 'e'], ['s', 't', 'r', 'i', 'n', 'g'],
+  ['u', 'i', 'n', 't'], ['u', 'i', 'n', 't', '8'], ['u', 'i', 'n', 't', '1', '6'], ['u', 'i', 'n', 't', '3', '2'],
+  ['u', 'i', 'n', 't', '6', '4'], ['u', 'i', 'n', 't', 'p', 't', 'r'], ['t', 'r', 'u', 'e'], ['f', 'a', 'l', 's', 'e'],
+  ['i', 'o', 't', 'a'], ['n', 'i', 'l'], ['a', 'p', 'p', 'e', 'n', 'd'], ['c', 'a', 'p'],
+  ['c', 'l', 'e', 'a', 'r'], ['c', 'l', 'o', 's', 'e'], ['c', 'o', 'm', 'p', 'l', 'e', 'x'], ['c', 'o', 'p', 'y'],
+  ['d', 'e', 'l', 'e', 't', 'e'], ['i', 'm', 'a', 'g'], ['l', 'e', 'n'], ['m', 'a', 'k', 'e'],
+  ['m', 'a', 'x'], ['m', 'i', 'n'], ['n', 'e', 'w'], ['p', 'a', 'n', 'i', 'c'],
+  ['p', 'r', 'i', 'n', 't'], ['p', 'r', 'i', 'n', 't', 'l', 'n'], ['r', 'e', 'a', 'l'], ['r', 'e', 'c', 'o', 'v', 'e', 'r']]
 
-/-- `rename`: position `i` is renamed to `prefix<i>` when its name is `_` or already starts with the
-prefix -/
-def renameFrom (pre : Name) : Nat → List Param → List Param
+def errName : Name := ['e', 'r', 'r']
+
+/-- `unusable`: a parameter that cannot be forwarded under its own name. At the pinned commit that was
+only `_`; every later repair added a clause (one model bit each, so that the model is the code of every
+stage): unnamed; `f` and `err`; the names handed out by the renaming itself (`param_…`, `innerParam_…`);
+the predeclared identifiers. -/
+def unusable (cfg : Cfg) (n : Name) : Bool :=
+  n == blank ||
+  (cfg.unnamedFixed && n == []) ||
+  (cfg.shadowFixed && (n == fName || n == errName)) ||
+  (cfg.prefixFixed && (paramPrefix.isPrefixOf n || innerPrefix.isPrefixOf n)) ||
+  (cfg.universeFixed && goUniverse.contains n)
+
+/-- `hasBlankIdentifier` -/
+def hasBlank (cfg : Cfg) (ps : List Param) : Bool := ps.any (fun p => unusable cfg p.name)
+
+/-- `rename`: position `i` is renamed to `prefix<i>` when its name is unusable or already starts with
+the prefix -/
+def renameFrom (cfg : Cfg) (pre : Name) : Nat → List Param → List Param
   | _, [] => []
   | i, p :: rest =>
-    (if p.name == blank || pre.isPrefixOf p.name then { p with name := genName pre i } else p)
-      :: renameFrom pre (i + 1) rest
+    (if unusable cfg p.name || pre.isPrefixOf p.name then { p with name := genName pre i } else p)
+      :: renameFrom cfg pre (i + 1) rest
 
-/-- `RenameBlankIdentifierWith`: nothing happens unless some parameter is `_` -/
-def renameBlankWith (pre : Name) (ps : List Param) : List Param :=
-  if hasBlank ps then renameFrom pre 0 ps else ps
+/-- `RenameBlankIdentifierWith` (parameters): nothing happens unless some parameter is unusable -/
+def renameBlankWith (cfg : Cfg) (pre : Name) (ps : List Param) : List Param :=
+  if hasBlank cfg ps then renameFrom cfg pre 0 ps else ps
 
 /-- `RenameBlankIdentifier` -/
-def renameBlank (ps : List Param) : List Param := renameBlankWith paramPrefix ps
+def renameBlank (cfg : Cfg) (ps : List Param) : List Param := renameBlankWith cfg paramPrefix ps
 
-/-- positional names for every parameter (the model of a repaired generator) -/
+/-- positional names for every parameter (tuple's `v<i>`; and the model of a generator that would
+repair the remaining uncurry clash) -/
 def positionalFrom (pre : Name) : Nat → List Param → List Param
   | _, [] => []
   | i, p :: rest => { p with name := genName pre i } :: positionalFrom pre (i + 1) rest
 
-/-- would a repaired generator have to step in? `avoid` = the binders of the enclosing scopes the
-emitted body refers to -/
-def needsFix (cfg : Cfg) (avoid : List Name) (ps : List Param) : Bool :=
-  (cfg.unnamedFixed && ps.any (fun p => p.name == [])) ||
-  (cfg.shadowFixed && ps.any (fun p => avoid.contains p.name))
+/-- the parameter list the generator works with after `Add` (`_avoid`: the binders the emitted body
+refers to besides the parameters; kept for the statements, the renaming does not depend on it) -/
+def effParams (cfg : Cfg) (_avoid : List Name) (pre : Name) (ps : List Param) : List Param :=
+  renameBlankWith cfg pre ps
 
-/-- the parameter list the generator works with after `Add` -/
-def effParams (cfg : Cfg) (avoid : List Name) (pre : Name) (ps : List Param) : List Param :=
-  let r := renameBlankWith pre ps
-  if needsFix cfg avoid r then positionalFrom pre 0 ps else r
+/-- `hasCapturingName`: a RESULT named `f` or like a renamed parameter -/
+def capturing (n : Name) : Bool := n == fName || paramPrefix.isPrefixOf n || innerPrefix.isPrefixOf n
+
+/-- the result names the wrappers are printed with: all stripped when one of them is capturing (`resultsFixed`) -/
+def effResults (cfg : Cfg) (rs : List Name) : List Name :=
+  if cfg.resultsFixed && rs.any capturing then rs.map (fun _ => []) else rs
 
 /-! ### signature surgery -/
 
@@ -194,6 +228,15 @@ def usable (n : Name) : Bool := n != [] && n != blank
 def nodupB : List Name → Bool
   | [] => true
   | n :: rest => !rest.contains n && nodupB rest
+
+/-- the named results of the innermost function literal are declared in the scope of its parameters
+`inner` and shadow everything outside (`f` and the parameters `outerPs` of enclosing literals): the
+text compiles iff the results are all named or all unnamed, the named ones are distinct from each
+other and from `inner`, and none of them hides a name the body uses -/
+def resultsOk (outerPs inner rs : List Name) : Bool :=
+  (rs.all (· == []) || rs.all (· != [])) &&
+  nodupB ((rs ++ inner).filter (fun n => n != [] && n != blank)) &&
+  rs.all (fun n => n == [] || (n != fName && !outerPs.contains n))
 
 /-- one parameter list: names all present or all absent (Go's syntax), no name declared twice -/
 def groupOk (bs : List Binder) : Bool :=
